@@ -36,7 +36,8 @@ RED = {
 }
 
 AXES = ["sample", "observation", "whole"]
-ACCESSORS = ["nnz", "density", "repr", "queries", "nonzero", "stats", "report", "frames"]
+ACCESSORS = ["nnz", "density", "repr", "queries", "nonzero", "stats", "report", "frames", "mdframes", "head"]
+PROFILES = [None, None, None, {"empty": "raise"}, {"all": "warn"}, {"all": "raise"}, {"empty": "call"}]
 ZERO_RULES = ["even-pos", "odd-pos", "below-3", "first", "all-but-first", "above-mean"]
 
 
@@ -229,7 +230,7 @@ class Files:
     def write(self, t, fmt):
         import h5py
         self.k += 1
-        p = os.path.join(TMP, "t%d.biom" % self.k)
+        p = os.path.join(TMP, "table.biom")          # the same path is re-used for HDF5 and JSON content
         if fmt == "hdf5":
             with h5py.File(p, "w") as f:
                 t.to_hdf5(f, "c19")
@@ -272,6 +273,7 @@ class Checker:
         self.ctx = ctx
         self.files = Files()
         self.recipe = None
+        self.cli_rng = None
 
     def ask(self, req, case, tags, nt=True, known_clause=None, known_tags=()):
         ctx = self.ctx
@@ -293,7 +295,7 @@ class Checker:
         return r
 
     # every check gets `t` (real table), `inp` (its own content, taken BEFORE the summaries run)
-    def queries(self, t, inp, tag, tags, only=None, exact=True, order=None):
+    def queries(self, t, inp, tag, tags, only=None, exact=True, order=None, poke=None):
         """all axes/modes of every array summary; `only`: restrict to these query names; `exact=False`: leave out the
         figures that add floats up (after `norm` the values are no dyadic fractions); `order`: an rng that shuffles
         the order in which the accessors are called"""
@@ -305,11 +307,18 @@ class Checker:
             for b in (True, False):
                 specs.append(({"q": "nzc", "axis": ax, "binary": b},
                               lambda ax=ax, b=b: t.nonzero_counts(ax, binary=b)))
+        # the documented defaults: sum() is 'whole', min()/max() are 'sample'
+        specs.append(({"q": "sum", "axis": "whole"}, lambda: t.sum()))
+        specs.append(({"q": "min", "axis": "sample"}, lambda: t.min()))
+        specs.append(({"q": "max", "axis": "sample"}, lambda: t.max()))
         specs.append(({"q": "density"}, lambda: t.get_table_density()))
         specs.append(({"q": "nnz"}, lambda: t.nnz))
         for ax in AXES[:2]:
             for fname in RED:
                 specs.append(({"q": "reduce", "f": fname, "axis": ax}, lambda ax=ax, fname=fname: t.reduce(RED[fname], ax)))
+        if max(t.shape) > 30:
+            # 2a+b over a long vector leaves the range where binary64 arithmetic is exact (generator contract)
+            specs = [x for x in specs if x[0].get("f") != "affine"]
         if only is not None:
             specs = [x for x in specs if x[0]["q"] in only]
         if not exact:
@@ -317,7 +326,11 @@ class Checker:
                      (x[0]["q"] == "nzc" and x[0]["binary"])]
         if order is not None:
             order.shuffle(specs)
-        items = [(q, ans_of(call)) for q, call in specs]
+        items = []
+        for q, call in specs:
+            if poke is not None and poke.random() < 0.25:
+                core.poke_layout(t, poke, 1)       # the layout a previous read left behind
+            items.append((q, ans_of(call)))
         for q, a in items:
             if q["q"] in ("min", "max") and "nums" in a:
                 self.ctx.count("query-%s=values" % q["q"])
@@ -366,7 +379,7 @@ class Checker:
                     out = os.path.join(TMP, "summary.txt")
                     args = ["summarize-table", "-i", fp] + (["--qualitative"] if q else []) + \
                            (["--observations"] if o else [])
-                    use_file = (q != o)
+                    use_file = (q != o) if self.cli_rng is None else self.cli_rng.random() < 0.5
                     r = cli(args + (["-o", out] if use_file else []))
                     if r.exception is not None:
                         self.files.rm(fp, out)
@@ -400,7 +413,10 @@ class Checker:
     def head(self, t, inp, tag, tags, fmt, n, m, to_file):
         fp = self.files.write(t, fmt)
         out = os.path.join(TMP, "head.txt")
-        args = ["head", "-i", fp, "-n", str(n), "-m", str(m)] + (["-o", out] if to_file else [])
+        args = ["head", "-i", fp] + (["-n", str(n)] if n is not None else []) + \
+               (["-m", str(m)] if m is not None else []) + (["-o", out] if to_file else [])
+        n = 5 if n is None else n                    # the command's defaults
+        m = 5 if m is None else m
         r = cli(args)
         if r.exception is not None and not isinstance(r.exception, SystemExit):
             res = {"error": core.err_name(r.exception)}
@@ -416,7 +432,11 @@ class Checker:
 
     def head_api(self, t, inp, tag, tags, n, m):
         try:
-            h = t.head(n, m)
+            if n is None and m is None:
+                h = t.head()                        # defaults: 5 x 5
+                n = m = 5
+            else:
+                h = t.head(n, m)
             res = {"ok": {k: core.table_obs(h)[k] for k in ("obs", "samp", "rows")}}
         except Exception as e:  # noqa
             res = {"error": core.err_name(e)}
@@ -460,11 +480,14 @@ class Checker:
             self.ask({"op": "mdframe", "ids": ids, "md": md, "result": res},
                      {"check": "mdframe", "axis": axis, "tag": tag}, tags, nt=md is not None)
 
-    def export_md(self, t, inp, tag, tags, fmt):
+    def export_md(self, t, inp, tag, tags, fmt, which="both"):
         fp = self.files.write(t, fmt)
         outs = {"sample": os.path.join(TMP, "smd.tsv"), "observation": os.path.join(TMP, "omd.tsv")}
         self.files.rm(*outs.values())
-        r = cli(["export-metadata", "-i", fp, "-m", outs["sample"], "--observation-metadata-fp", outs["observation"]])
+        flags = {"sample": ["-m" if self.files.k % 2 else "--sample-metadata-fp", outs["sample"]],
+                 "observation": ["--observation-metadata-fp", outs["observation"]]}
+        asked = ["sample", "observation"] if which == "both" else [which]
+        r = cli(["export-metadata", "-i", fp] + [x for a in asked for x in flags[a]])
         if r.exception is not None:
             self.ctx.fail({"check": "export-metadata", "tag": tag}, "export-metadata raised",
                           list(tags) + [type(r.exception).__name__])
@@ -473,6 +496,11 @@ class Checker:
         from biom import load_table
         seen = load_table(fp)                      # the table the command sees (key order as loaded)
         for axis in ("sample", "observation"):
+            if axis not in asked:
+                if os.path.exists(outs[axis]):
+                    self.ctx.fail({"check": "export-metadata", "tag": tag, "recipe": self.recipe},
+                                  "export-metadata wrote a file that was not asked for", list(tags) + [axis])
+                continue
             ids = [str(x) for x in t.ids(axis=axis)]
             md = md_entries(seen, axis, canon_str)
             if (md is None) != (t.metadata(axis=axis) is None) or (
@@ -491,41 +519,84 @@ class Checker:
                      {"check": "export-metadata", "axis": axis, "tag": tag}, tags, nt=md is not None)
         self.files.rm(fp, *outs.values())
 
-    def all_api(self, t, tag, tags):
+    def unchanged(self, t, before, what, tag, tags):
+        """a summary or an export is a read: the table's own content must be what it was"""
+        after = core.table_obs(t)
+        if after != before:
+            self.ctx.fail({"check": "readonly", "what": what, "tag": tag, "before": before, "after": after,
+                           "recipe": self.recipe}, "readonly: the table changed under a read (%s)" % what.split(":")[0],
+                          list(tags) + ["readonly"])
+
+    def group(self, t, name, tag, tags, rng=None, exact=True):
+        """one accessor group on the table AS IT IS NOW: its own content and layout are read first, then the real
+        summary is asked, then the content is read again (reads must not change it)"""
+        inp = input_obs(t)
+        gtag = "%s:%s" % (tag, name)
+        if name in ("nnz", "density"):
+            self.queries(t, inp, gtag, tags, only=[name])
+        elif name.startswith("q-"):
+            self.queries(t, inp, gtag, tags, only=[name[2:]], exact=exact, order=rng)
+        elif name == "queries":
+            self.queries(t, inp, gtag, tags, exact=exact, order=rng, poke=rng)
+        elif name == "repr":
+            self.repr_(t, inp, gtag, tags)
+        elif name == "nonzero":
+            self.nonzero(t, inp, gtag, tags)
+        elif name == "stats":
+            self.stats(t, inp, gtag, tags, binaries=(False, True) if exact else (True,))
+        elif name == "report":
+            self.report(t, inp, gtag, tags, "api", quals=(False, True) if exact else (True,))
+        elif name == "frames":
+            self.frames(t, inp, gtag, tags)
+        elif name == "mdframes":
+            self.mdframes(t, inp, gtag, tags)
+        elif name == "head":
+            if rng is None or rng.random() < 0.2:
+                self.head_api(t, inp, gtag, tags, None, None)
+            else:
+                self.head_api(t, inp, gtag, tags, rng.choice([-1, 0, 1, 2, 3, 9]), rng.choice([1, 1, 2, 4, 9, 70]))
+        else:
+            raise ValueError(name)
+        self.unchanged(t, inp["table"], name, gtag, tags)
+        return inp
+
+    def all_api(self, t, tag, tags, seed=None):
+        """every accessor group once.  seed=None: the fixed order (nonzero first, on the layout exactly as built);
+        otherwise: random order, a random layout left behind by read-only calls before a share of the groups
+        (core.poke_layout), a share under a non-default error profile"""
+        import random
+        import biom.err
         inp = input_obs(t)
         lf = core.layout_facts(t)
         self.ctx.count("layout=%s/%s" % (lf.get("format"), "sorted" if lf.get("sorted", True) else "unsorted"))
         self.ctx.count("shape=%s" % ("non-square" if asym(inp["table"]) else "square"))
-        self.nonzero(t, inp, tag, tags)          # first: walks the layout exactly as built (index order observable)
-        self.queries(t, inp, tag, tags)
-        self.repr_(t, inp, tag, tags)
-        self.stats(t, inp, tag, tags)
-        self.report(t, inp, tag, tags, "api")
-        self.frames(t, inp, tag, tags)
-        self.mdframes(t, inp, tag, tags)
+        groups = ["nonzero", "queries", "repr", "stats", "report", "frames", "mdframes"]
+        if seed is None:
+            for g in groups:
+                self.group(t, g, tag, tags)
+            return inp
+        rng = random.Random(seed)
+        groups.append("head")
+        rng.shuffle(groups)
+        profile = rng.choice(PROFILES)
+        self.ctx.count("profile=%s" % ("default" if profile is None else "+".join("%s=%s" % kv for kv in profile.items())))
+        for g in groups:
+            if rng.random() < 0.6:
+                for c in core.poke_layout(t, rng):
+                    self.ctx.count("poke=%s" % c)
+            self.ctx.count("layout-at-call=%s" % t.matrix_data.getformat())
+            if profile is None:
+                self.group(t, g, tag, tags, rng)
+            else:
+                with warnings.catch_warnings():
+                    warnings.simplefilter("ignore")
+                    with biom.err.errstate(**profile):
+                        self.group(t, g, tag, tags, rng)
         return inp
 
     # ------------------------------------------------------------------ histories
     def access(self, t, name, tag, tags, rng, exact=True):
-        """one accessor group on the table AS IT IS NOW: its own content is read first, then the summary is asked"""
-        inp = input_obs(t)
-        tag = "%s:%s" % (tag, name)
-        if name in ("nnz", "density"):
-            self.queries(t, inp, tag, tags, only=[name])
-        elif name == "queries":
-            self.queries(t, inp, tag, tags, exact=exact, order=rng)
-        elif name == "repr":
-            self.repr_(t, inp, tag, tags)
-        elif name == "nonzero":
-            self.nonzero(t, inp, tag, tags)
-        elif name == "stats":
-            self.stats(t, inp, tag, tags, binaries=(False, True) if exact else (True,))
-        elif name == "report":
-            self.report(t, inp, tag, tags, "api", quals=(False, True) if exact else (True,))
-        elif name == "frames":
-            self.frames(t, inp, tag, tags)
-        else:
-            raise ValueError(name)
+        self.group(t, name, tag, tags, rng, exact=exact)
 
     def history(self, base, hseed, tag, tags, script=None):
         """summaries -> an in-place change -> summaries again; the second answers are judged against the table's
@@ -541,6 +612,8 @@ class Checker:
         first = script.get("first") or rng.sample(ACCESSORS, rng.randint(1, 4))
         for name in first:
             self.access(t, name, tag + ":p1", tags, rng)
+        # tables derived from this one and exports taken from it stay alive across the change
+        derived, exports = self.derive(t, rng)
         # bring the data into a chosen layout, then (mostly) ask a figure that goes through nnz once more
         walk = script.get("walk") or rng.choice(["as-is", "obs-walk", "samp-walk"])
         if walk == "obs-walk":
@@ -549,12 +622,14 @@ class Checker:
         elif walk == "samp-walk":
             for _ in t.iter_data(axis="sample", dense=False):
                 pass
-        probe = script.get("probe") or rng.choice(["nnz", "density", "repr", "report", "nnz", "none"])
+        probe = script.get("probe") or rng.choice(["nnz", "density", "repr", "report", "nnz", "none", "queries", "stats",
+                                                   "frames", "mdframes", "head", "nonzero", "q-sum", "q-sum", "q-min",
+                                                   "q-max", "q-nzc", "q-reduce"])
         if probe != "none":
             self.access(t, probe, tag + ":probe", tags, rng)
         fmt = t.matrix_data.getformat()
         # the change
-        changes = ["zero", "zero", "zero", "zero", "pa", "filter", "update_ids", "scale"]
+        changes = ["zero", "zero", "zero", "zero", "pa", "filter", "update_ids", "scale", "del_md", "add_md", "md_mutate"]
         if dense0.size and (dense0 >= 0).all():
             changes.append("norm")
         change = script.get("change") or rng.choice(changes)
@@ -575,10 +650,27 @@ class Checker:
             else:
                 change = "filter-skipped"
         elif change == "update_ids":
-            t.update_ids({i: "%s_r" % i for i in t.ids(axis=axis)}, axis=axis, inplace=True)
+            # new IDs longer than every existing one (IDs live in fixed-width arrays)
+            longest = max(len(str(i)) for i in list(t.ids()) + list(t.ids(axis="observation")))
+            t.update_ids({i: "%s_%s" % (i, "r" * (longest + 3)) for i in t.ids(axis=axis)}, axis=axis, inplace=True)
         elif change == "norm":
             t.norm(axis=axis, inplace=True)
             exact = False
+        elif change == "del_md":
+            md = t.metadata(axis=axis)
+            if md is not None and len(md) and len(md[0]):
+                t.del_metadata(keys=[rng.choice(sorted(md[0].keys()))], axis=axis)
+            else:
+                change = "del_md-skipped"
+        elif change == "add_md":
+            t.add_metadata({i: {"extra": "x%d" % n} for n, i in enumerate(t.ids(axis=axis))}, axis=axis)
+        elif change == "md_mutate":
+            md = t.metadata(axis=axis)
+            if md is not None and len(md) and "grp" in md[0]:
+                for e in md:
+                    e["grp"] = "mutated-" + str(e["grp"])       # the entry dicts stay the same objects
+            else:
+                change = "md_mutate-skipped"
         dense1 = t.matrix_data.toarray()
         fewer = dense1.shape == dense0.shape and int((dense1 != 0).sum()) < int((dense0 != 0).sum())
         same_obj_axis = (fmt == "csr" and axis == "observation") or (fmt == "csc" and axis == "sample")
@@ -586,11 +678,82 @@ class Checker:
         self.ctx.count("history=%s/%s-axis/%s%s" % (fmt, axis[:4], "layout-kept" if same_obj_axis else "converted",
                                                     "/cells-zeroed" if fewer else ""))
         self.ctx.count("history-probe=%s" % probe)
+        htags = tags + ("history", change.split(":")[0], axis)
+        self.still(derived, exports, tag + ":after-change", htags)
         # phase 2: every accessor, random order
         second = list(ACCESSORS)
         rng.shuffle(second)
+        if probe != "none":
+            second = [probe] + second              # the same read again, first
         for name in second:
-            self.access(t, name, tag + ":p2:" + change, tags + (("history", change.split(":")[0], axis)), rng, exact=exact)
+            self.access(t, name, tag + ":p2:" + change, htags, rng, exact=exact)
+        # one of the derived tables answers for itself, then is changed in place: the source and the others stay
+        if derived:
+            dname = rng.choice(sorted(derived))
+            d = derived[dname][0]
+            for name in rng.sample(ACCESSORS, 3):
+                self.access(d, name, tag + ":derived-" + dname, htags + ("derived", dname), rng)
+            src = core.table_obs(t)
+            if d.shape[0] and d.shape[1]:
+                d.transform(zero_rule(rng.choice(ZERO_RULES)), axis=rng.choice(["observation", "sample"]), inplace=True)
+                d.update_ids({i: "%s_zz" % i for i in d.ids()}, inplace=True)
+            derived[dname] = (d, core.table_obs(d))
+            self.unchanged(t, src, "alias:change-of-derived-" + dname, tag, htags + ("alias",))
+            self.still(derived, {}, tag + ":after-derived-change", htags)
+
+    def derive(self, t, rng):
+        """tables derived from `t` and arrays/frames exported from it, with what they hold now"""
+        import numpy as np
+        derived = {}
+        n, m = t.shape
+        try:
+            derived["copy"] = t.copy()
+            derived["transpose"] = t.transpose()
+            derived["head"] = t.head(max(1, n - 1), max(1, m - 1))
+            if m >= 1:
+                derived["sorted"] = t.sort_order(list(reversed(list(t.ids()))))
+            if n >= 2:
+                derived["filtered"] = t.filter(list(t.ids(axis="observation"))[:1], axis="observation", invert=True,
+                                               inplace=False)
+        except Exception as e:  # noqa
+            self.ctx.notes.append("derive: %s" % type(e).__name__)
+        derived = {k: (d, core.table_obs(d)) for k, d in derived.items()}
+        exports = {}
+        for name, mk in [("frame-dense", lambda: t.to_dataframe(dense=True)), ("frame-sparse", lambda: t.to_dataframe()),
+                         ("sum-sample", lambda: t.sum("sample")), ("sum-observation", lambda: t.sum("observation")),
+                         ("nzc", lambda: t.nonzero_counts("sample")), ("matrix-copy", lambda: t.matrix_data.copy())]:
+            x = mk()
+            exports[name] = (x, self.snap(x))
+        for axis in ("sample", "observation"):
+            if t.metadata(axis=axis) is not None:
+                x = t.metadata_to_dataframe(axis)
+                exports["mdframe-" + axis] = (x, self.snap(x))
+        return derived, exports
+
+    @staticmethod
+    def snap(x):
+        import numpy as np
+        if hasattr(x, "toarray"):
+            return [[core.frac(v) for v in r] for r in x.toarray().tolist()]
+        if hasattr(x, "index") and hasattr(x, "columns"):
+            vals = np.asarray(x)
+            return {"index": [str(i) for i in x.index], "columns": [str(c) for c in x.columns],
+                    "values": [[repr(v) for v in r] for r in vals.tolist()]}
+        return [core.frac(v) for v in np.asarray(x, dtype=float).ravel().tolist()]
+
+    def still(self, derived, exports, tag, tags):
+        """every other live table and every export taken earlier is what it was"""
+        for name, (d, before) in derived.items():
+            self.ctx.case({"check": "alias", "what": name, "tag": tag}, nontrivial=True)
+            self.ctx.count("op=alias")
+            self.unchanged(d, before, "alias:derived-" + name, tag, tuple(tags) + ("alias",))
+        for name, (x, before) in exports.items():
+            self.ctx.case({"check": "alias", "what": name, "tag": tag}, nontrivial=True)
+            self.ctx.count("op=alias")
+            if self.snap(x) != before:
+                self.ctx.fail({"check": "alias", "what": name, "tag": tag, "before": before, "after": self.snap(x),
+                               "recipe": self.recipe}, "alias: an export taken earlier changed with the table (%s)" % name,
+                              list(tags) + ["alias"])
 
 
 # ----------------------------------------------------------------------------- corpus
@@ -617,6 +780,8 @@ def fixed_corpus():
     out.append(("single-row", lambda: Table(np.array([[0.0, 2.0, 8.0]]), ["a"], ["x", "y", "z"])))
     out.append(("ties-in-detail", lambda: Table(np.array([[1.0, 1, 0, 2], [1, 1, 2, 0]]), ["a", "b"],
                                                  ["s4", "s3", "s2", "s1"])))
+    out.append(("head-empty-lead", lambda: Table(np.array([[0.0, 0, 3], [1, 2, 0], [0, 0, 0], [0, 0, 7]]),
+                                                  ["a", "b", "c", "d"], ["x", "y", "z"])))
     out.append(("print-tie-0.0625", lambda: Table(np.array([[0.0625, 0.0], [0.0, 0.1875]]), ["a", "b"], ["x", "y"])))
     return out
 
@@ -645,9 +810,31 @@ def gen_table(rng, quick):
     # non-square most of the time
     if len(spec["obs"]) == len(spec["samp"]) and rng.random() < 0.8:
         spec = core.gen_spec(rng, max_n=mx, max_m=mx, classes=classes, md=True, density=dens)
+    if rng.random() < 0.35:
+        trick_ids(rng, spec)
     route = rng.choice(core.ROUTES)
     post = rng.choice(POSTS)
     return spec, route, post, classes
+
+
+def trick_ids(rng, spec):
+    """IDs that look like other IDs of the same axis (extension, prefix, case variant, leading/trailing blank) and IDs
+    much longer than the rest: IDs live in fixed-width arrays"""
+    for key in ("obs", "samp"):
+        ids = spec[key]
+        if len(ids) < 2:
+            continue
+        cands = [c for c in core.tricky_unknown_ids(ids) if "\n" not in c and "\t" not in c and c.strip()]
+        other = spec["samp" if key == "obs" else "obs"]
+        cands = [c for c in cands if c not in other]
+        if cands and rng.random() < 0.8:
+            ids[rng.randrange(len(ids))] = rng.choice(cands)
+        if rng.random() < 0.3:
+            q = rng.randrange(len(ids))
+            long_id = ids[q] + "-" + "L" * rng.choice([20, 40, 70])
+            if long_id not in ids:
+                ids[q] = long_id
+    assert len(set(spec["obs"])) == len(spec["obs"]) and len(set(spec["samp"])) == len(spec["samp"])
 
 
 def build_case(spec, route, post, seed):
@@ -673,12 +860,16 @@ def from_recipe(rc):
 def run_cli(chk, t, tag, tags, rng):
     inp = input_obs(t)
     fmt = rng.choice(["hdf5", "json"])
-    chk.report(t, inp, tag, tags, fmt)
-    chk.ids_cli(t, inp, tag, tags, fmt)
-    n = rng.choice([1, 2, 3, 5, 7])
-    m = rng.choice([1, 2, 3, 5, 7])
-    chk.head(t, inp, tag, tags, fmt, n, m, to_file=rng.random() < 0.5)
-    chk.export_md(t, inp, tag, tags, fmt)
+    chk.cli_rng = rng                                  # -o / stdout per call
+    try:
+        chk.report(t, inp, tag, tags, fmt)
+    finally:
+        chk.cli_rng = None
+    chk.ids_cli(t, inp, tag, tags, rng.choice(["hdf5", "json"]))      # the same path, possibly the other format
+    n = rng.choice([1, 2, 3, 5, 7, None])
+    m = rng.choice([1, 2, 3, 5, 7, None])
+    chk.head(t, inp, tag, tags, rng.choice(["hdf5", "json"]), n, m, to_file=rng.random() < 0.5)
+    chk.export_md(t, inp, tag, tags, fmt, which=rng.choice(["both", "both", "sample", "observation"]))
 
 
 def run(ctx):
@@ -740,6 +931,33 @@ def run(ctx):
                 continue
             chk.head(t, inp, "fixed:head", ("fixed", "head"), "json", n, m, to_file=False)
             chk.head_api(t, inp, "fixed:head", ("fixed", "head"), n, m)
+        import numpy as np
+        from biom import Table
+        k_det += 1
+        if ctx.mine(k_det):
+            chk.recipe = {"kind": "fixed", "name": "head-empty-lead", "post": "none"}
+            t = from_recipe(chk.recipe)
+            inp = input_obs(t)
+            for fmt in ("hdf5", "json"):
+                for n, m in [(3, 2), (2, 1), (None, None)]:
+                    chk.head(t, inp, "fixed:head-empty-lead/" + fmt, ("fixed", "head"), fmt, n, m, to_file=False)
+        # wide tables: size-dependent fast paths (>= 64 IDs on an axis)
+        for wk, waxis in enumerate(["sample", "observation", "sample", "observation"]):
+            k_det += 1
+            if not ctx.mine(k_det):
+                continue
+            spec = core.wide_spec(ctx.rng, axis=waxis, classes=("count", "dyadic", "neg") if wk < 2 else ("smallcount",),
+                                  md=wk % 2 == 0)
+            route = ctx.rng.choice(core.ROUTES)
+            post = ctx.rng.choice(POSTS)
+            aseed = ctx.rng.randrange(10 ** 9)
+            chk.recipe = {"kind": "spec", "spec": spec, "route": route, "post": post, "seed": wk, "aseed": aseed}
+            wtags = ("wide", waxis, route, post)
+            ctx.count("wide=%s/%d" % (waxis, max(len(spec["obs"]), len(spec["samp"]))))
+            chk.all_api(from_recipe(chk.recipe), "wide:%d:%d" % (ctx.worker[0], wk), wtags, seed=aseed)
+            base = chk.recipe
+            run_cli(chk, from_recipe(base), "wide:%d:%d" % (ctx.worker[0], wk), wtags + ("cli",), ctx.rng)
+            chk.history(base, ctx.rng.randrange(10 ** 9), "wide-hist:%d:%d" % (ctx.worker[0], wk), wtags)
         # 2. every route x every prior operation on one asymmetric spec with metadata
         rng = ctx.rng
         wtag = "w%d:" % ctx.worker[0] if ctx.worker[1] > 1 else ""
@@ -752,19 +970,21 @@ def run(ctx):
                 ctx.count("route=%s" % route)
                 ctx.count("post=%s" % post)
         # 3. random tables
-        n_tables = 300 if ctx.quick() else 16000 // ctx.worker[1]
+        n_tables = 250 if ctx.quick() else 10000 // ctx.worker[1]
         cli_share = 0.15 if ctx.quick() else 0.1
         hist_share = 0.6
         for k in range(n_tables):
             spec, route, post, classes = gen_table(rng, ctx.quick())
-            chk.recipe = {"kind": "spec", "spec": spec, "route": route, "post": post, "seed": k}
+            aseed = rng.randrange(10 ** 9) if rng.random() < 0.6 else None
+            chk.recipe = {"kind": "spec", "spec": spec, "route": route, "post": post, "seed": k, "aseed": aseed}
             t = from_recipe(chk.recipe)
             tag = "rand:%s%d" % (wtag, k)
             tags = ("random", route, post)
             ctx.count("route=%s" % route)
             ctx.count("post=%s" % post)
             ctx.count("values=%s" % "+".join(classes))
-            inp = chk.all_api(t, tag, tags)
+            inp = chk.all_api(t, tag, tags, seed=aseed)
+            ctx.count("order=%s" % ("fixed" if aseed is None else "random+poke"))
             ctx.count("metadata=%s" % ("/".join(x for x in ("obs" if inp["table"]["omd"] else "",
                                                           "samp" if inp["table"]["smd"] else "") if x) or "none"))
             if rng.random() < 0.3:
@@ -802,7 +1022,7 @@ def replay(ctx, rec):
                 chk.stats(t, inp, "replay", tags)
                 chk.frames(t, inp, "replay", tags)
             else:
-                chk.all_api(from_recipe(rc), "replay", tags)
+                chk.all_api(from_recipe(rc), "replay", tags, seed=rc.get("aseed"))
                 run_cli(chk, from_recipe(rc), "replay", tags, random.Random(1))
                 t = from_recipe(rc)
                 inp = input_obs(t)
